@@ -2,7 +2,7 @@
    Statements only; proofs (finite sweeps lifted to all call indices) are in IOProofs.v. *)
 From Coq Require Import List Bool Arith.
 Import ListNotations.
-From MD Require Import IODefs IOProofs.
+From MD Require Import IODefs IOProofs IOSeqProofs.
 
 (* For every action protocol (move by rename, move across file systems, maildir_write = label /
    add-header, discard; source in a maildir or the stdin spool), every version / mtime of the
@@ -16,6 +16,18 @@ Theorem C01_single_fault : forall a v m k r, v <= 1 -> m <= 1 -> r <> Ok ->
   c01_check a v m (single k r) k = true.
 Proof. exact c01_single_fault. Qed.
 Print Assumptions C01_single_fault.
+
+(* a whole run: the messages are handled one after the other, call numbers run on; whichever call K of whichever
+   message fails, EVERY message satisfies the clauses above (the one that was hit with its local index K - base, the
+   others as in a fault-free run) *)
+Theorem C01_whole_run : forall jobs K r, Forall wf_job jobs -> r <> Ok -> forall base, seq_check jobs (single K r) base K = true.
+Proof. exact c01_sequence. Qed.
+Print Assumptions C01_whole_run.
+
+Theorem C01_whole_run_nofault : forall jobs, Forall wf_job jobs -> forall base,
+  Forall (fun br => r_status (snd br) = 0) (run_seq jobs nofault base).
+Proof. exact c01_sequence_nofault. Qed.
+Print Assumptions C01_whole_run_nofault.
 
 (* two faults: nothing is lost *)
 Theorem C01_double_fault_noloss : forall a v m k1 r1 k2 r2, v <= 1 -> m <= 1 -> r1 <> Ok -> r2 <> Ok ->
